@@ -3625,15 +3625,32 @@ def check_locked_freezes_last_definition(ck, R):
     # elsewhere the stamp is set only where the version was confirmed for the current generation
     gen_eq = [t for (_p, lits) in paths for t in lits
               if isinstance(_parse_lit(t), ast.Compare) and isinstance(_parse_lit(t).ops[0], ast.Eq) and GEN in cls_text(t) and "_global_fn_version_cache" in t]
+    # the field of a cache entry that the generation test compares with the current generation
+    gen_fields = set()
+    for t in gen_eq:
+        e_ = _parse_lit(cls_text(t))
+        for side in (e_.left, e_.comparators[0]):
+            if isinstance(side, ast.Attribute) and "_global_fn_version_cache" in A.norm(side):
+                gen_fields.add(side.attr)
+
+    def entry_generation(v_, at_):
+        """`<the cache entry>.<generation field>`, the entry read from the version cache on the spot or through a local"""
+        if not (isinstance(v_, ast.Attribute) and v_.attr in gen_fields):
+            return False
+        if isinstance(v_.value, ast.Name):
+            return any(d.value is not None and "_global_fn_version_cache" in cls_text(fa.xnorm(d.value, d.node)) for d in fa.df.reaching(at_, v_.value.id))
+        return "_global_fn_version_cache" in cls_text(fa.xnorm(v_.value, at_))
+
     for s_ in stamp_asg:
         ns = set(fa.nodes(s_))
         okc = True
         for (pth, lits) in paths:
             if not (ns & set(pth)) or first(pth, recs) is not None:
                 continue
-            val = cls_text(fa.xnorm(s_.value, next(i for i in pth if i in ns)))
+            at_ = next(i for i in pth if i in ns)
+            val = cls_text(fa.xnorm(s_.value, at_))
             confirmed = any(lits.get(t) is True for t in gen_eq)
-            if not (confirmed and (val == GEN or ("_global_fn_version_cache" in val and any(val in cls_text(t) for t in gen_eq)))):
+            if not (confirmed and (val == GEN or ("_global_fn_version_cache" in val and any(val in cls_text(t) for t in gen_eq)) or entry_generation(s_.value, at_))):
                 okc = False
         ck.ob(R, fa.key(s_, "stamp-only-when-current"), okc, "the stamp is set where the version is computed or confirmed for the current generation" if okc else
               "`%s` stamps a version that was neither recomputed nor confirmed (cache entry of the current generation, no rule changed) on that "
